@@ -29,6 +29,19 @@ TRUSTED_BASE = [
 ]
 
 
+COMP_TYPES = ["ChemicalCompositionVec", "ChemicalCompositionMap", "ChemicalComposition", "ChemicalCompositionRef", "ElementSpecification"]
+BRAIN_TYPES = ["IsotopicDistribution", "IsotopicConstants", "PhiConstants", "PolynomialParameters", "Peak"]
+PROP_SHAPES = {
+    "C01": ["FormulaParser"] + COMP_TYPES, "C02": COMP_TYPES, "C04": COMP_TYPES, "C06": COMP_TYPES,
+    "C05": ["FormulaParser"], "C07": ["FormulaParser"] + COMP_TYPES,
+    "C03": BRAIN_TYPES, "C09": BRAIN_TYPES, "C10": BRAIN_TYPES,
+    "C08": BRAIN_TYPES + ["BafflingRecursiveIsotopicPatternGenerator", "IsotopicConstantsCache"],
+    "C11": ["Peak", "TheoreticalIsotopicPattern"], "C12": ["Element", "Isotope", "PeriodicTable"],
+    "C13": ["Peak", "TheoreticalIsotopicPattern"], "C14": ["Peak", "TheoreticalIsotopicPattern", "IncrementalTruncationIter"],
+    "C15": ["Peak"], "C16": COMP_TYPES, "C17": ["CChemicalComposition", "ChemicalComposition"],
+}
+
+
 class Broken(Exception):
     """the check itself is broken (not a finding about /repo)"""
 
@@ -189,7 +202,22 @@ class Run:
         hits = self.grep_forbidden()
         self.oblige("no sorry/admit/axiom/native_decide/bv_decide/implemented_by/unsafe in Lean sources",
                     "audit", not hits, "; ".join(hits[:5]))
+        self.check_shapes()
         return ok, failing, out
+
+    def check_shapes(self):
+        """state-shape obligation (tools/shapes.py): the structs whose state the model of this property carries declare
+        exactly the fields they had when the model was validated"""
+        names = PROP_SHAPES.get(self.prop, [])
+        if not names:
+            return
+        sys.path.insert(0, str(ROOT))
+        from tools.shapes import differences
+        diff = differences(names, REPO)
+        self.oblige("state shape: " + ", ".join(names) + " declare exactly the fields the model carries (state_shapes.json)",
+                    "shape", not diff, "; ".join(diff)[:600])
+        if diff:
+            self.notes["state_shape_differences"] = diff
 
     def _module_built(self, mod):
         return (LEAN / ".lake" / "build" / "lib" / "lean" / "ChemProofs" /
